@@ -22,7 +22,7 @@ func loaderText(items []J, t int) string {
 	var sb strings.Builder
 	for k, x := range items {
 		it := x.([]J)
-		id := t*10 + k + 1
+		id := t*100 + k + 1
 		switch it[0].(string) {
 		case "cl":
 			fmt.Fprintf(&sb, "%s(%d).\n", it[1], id)
